@@ -629,8 +629,12 @@ htp_status_t htp_tx_req_process_body_data_ex(htp_tx_t *tx, const void *data, siz
         case HTP_COMPRESSION_DEFLATE:
         case HTP_COMPRESSION_LZMA:
             // In severe memory stress these could be NULL
-            if (tx->connp->req_decompressor == NULL)
+            if (tx->connp->req_decompressor == NULL) {
+                // Nothing is left to flush when the decompressor has been told to
+                // finish already, at the last chunk of a chunked body
+                if ((data == NULL) && (len == 0)) return HTP_OK;
                 return HTP_ERROR;
+            }
 
             // Send data buffer to the decompressor.
             htp_gzip_decompressor_decompress(tx->connp->req_decompressor, &d);
